@@ -173,22 +173,24 @@ class AsyncFFSynchronizer(Elaboratable):
                                       .format(type(platform).__qualname__))
 
         m = Module()
-        # The private domain must not have the same name as the output domain: it would shadow it, and
-        # its clock would be connected to itself.
-        async_ff = "async_ff" if self._o_domain != "async_ff" else "async_ff_"
-        m.domains += ClockDomain(async_ff, async_reset=True)
+        # The private domain is defined in a submodule of its own, so that its name cannot capture
+        # anything else that is called `async_ff`: the output domain, or a domain whose (late bound)
+        # clock or reset signal is the input of the synchronizer.
+        m.submodules.stages = stages = Module()
+        async_ff = ClockDomain("async_ff", async_reset=True)
+        stages.domains += async_ff
         flops = [Signal(1, name=f"stage{index}", init=1)
                  for index in range(self._stages)]
         for i, o in zip((0, *flops), flops):
-            m.d[async_ff] += o.eq(i)
+            stages.d.async_ff += o.eq(i)
 
         if self._edge == "pos":
-            m.d.comb += ResetSignal(async_ff).eq(self.i)
+            m.d.comb += async_ff.rst.eq(self.i)
         else:
-            m.d.comb += ResetSignal(async_ff).eq(~self.i)
+            m.d.comb += async_ff.rst.eq(~self.i)
 
         m.d.comb += [
-            ClockSignal(async_ff).eq(ClockSignal(self._o_domain)),
+            async_ff.clk.eq(ClockSignal(self._o_domain)),
             self.o.eq(flops[-1])
         ]
         m.submodules += RequirePosedge(self._o_domain)
